@@ -360,3 +360,102 @@ def run_histories(seed, n, tier, gen=gen_race_history):
             w.close()
         worlds.append(w)
     return worlds
+
+# ---- correspondence with Model.Client ----------------------------------------------------------
+
+ERR_KINDS = {"GroupNotFound": "1", "Message": "2", "CommitFromNonAdmin": "3", "Group": "4"}
+MODEL_FIELDS = ("epoch", "token", "members", "admins", "name", "state", "pr", "last", "msgs_m", "recs_m", "snaps")
+
+def model_input(w):
+    """translate the harness trace into the model driver's input lines; returns [(trace_index, line)]"""
+    out = []
+    n = w.meta["n"]
+    pers = ",".join(str(i) for i, b in enumerate(w.meta["backends"]) if b == "sql") or "-"
+    admins = ",".join(map(str, w.meta["admins"]))
+    for i, (cmd, res, fp) in enumerate(w.trace):
+        t = cmd.split()
+        ev = re.search(r"ev=(\d+) idnum=(\d+) ts=(-?\d+)(?: mid=(\d+))?", res)
+        if t[0] == "create":
+            out.append((i, f"setup {n} {w.meta['retention']} {pers} {admins} 1"))
+        elif t[0] in ("world", "client", "kp", "welcome", "accept", "decline"):
+            continue
+        elif t[0] == "send":
+            if ev: out.append((i, f"send {t[1]} {ev.group(1)} {ev.group(3)} {ev.group(2)} {ev.group(4)} {100 + int(t[2])} {t[2]}"))
+            else: out.append((i, f"send {t[1]} 9999 0 0 9999 {100 + int(t[2])} {t[2]}"))
+        elif t[0] == "selfupdate":
+            out.append((i, f"selfupdate {t[1]} {ev.group(1)} {ev.group(3)} {ev.group(2)}" if ev else f"selfupdate {t[1]} 9999 0 0"))
+        elif t[0] == "data" and t[2] == "name":
+            out.append((i, f"name {t[1]} {t[3]} {ev.group(1)} {ev.group(3)} {ev.group(2)}" if ev else f"name {t[1]} {t[3]} 9999 0 0"))
+        elif t[0] == "leave":
+            out.append((i, f"leave {t[1]} {ev.group(1)} {ev.group(3)} {ev.group(2)}" if ev else f"leave {t[1]} 9999 0 0"))
+        elif t[0] in ("merge", "clear", "restart", "fp"):
+            out.append((i, f"{t[0]} {t[1]}"))
+        elif t[0] == "deliver":
+            out.append((i, f"deliver {t[1]} {t[2]}" + (f" {ev.group(1)} {ev.group(2)} {ev.group(3)}" if ev else "")))
+        elif t[0] == "rewrap":
+            out.append((i, f"rewrap {t[1]} {ev.group(1)} {ev.group(3)} {ev.group(2)}" if ev else "bad"))
+        else:
+            out.append((i, "unsupported " + cmd))
+    return out
+
+def norm_res(res, impl):
+    r = res.split()[0]
+    if r.startswith("ev="):
+        return "ev=" + r[3:]
+    if r.startswith("err:"):
+        k = r[4:]
+        return "err:" + (ERR_KINDS.get(k, "9") if impl else k)
+    return r
+
+def fp_view(fp):
+    f = parse_fp(fp) if "D" in fp and " I" in fp else None
+    if f is None:
+        m = re.match(r"E(\d+) T(-?\d+) M\[([^\]]*)\] A\[([^\]]*)\] N(\S*) S(\w) PR\[([^\]]*)\] L(\S+) X\[([^\]]*)\] K\[([^\]]*)\] Z(\d+)", fp)
+        if not m:
+            return fp
+        return (m.group(1), m.group(2), m.group(3), m.group(4), m.group(5), m.group(6), m.group(7), m.group(8), m.group(9), m.group(10), m.group(11))
+    msgs = ",".join(f"{m['id']}:{m['author']}:{m['state']}:{m['epoch']}:{m['wrapper']}:{m['tok']}" for m in f["msgs"])
+    recs = ",".join(f"{n}:{s}:{e}" for n, (s, e) in sorted(f["recs"].items()))
+    return (str(f["epoch"]), str(f["token"]), f["members"], f["admins"], f["name"], f["state"], f["pr"], f["last"], msgs, recs, str(f["snaps"]))
+
+FIELD_NAMES = ("epoch", "token", "members", "admins", "name", "state", "pending_removes", "last_message", "messages", "records", "snapshots")
+
+def correspondence(worlds):
+    """replays every trace on the Lean model and diffs result kind + fingerprint fields"""
+    fails, compared = [], 0
+    inputs = []
+    text = ""
+    for w in worlds:
+        if getattr(w, "crashed", None) or not hasattr(w, "meta"):
+            continue
+        mi = model_input(w)
+        inputs.append((w, mi))
+        text += "".join(l + "\n" for _, l in mi)
+    rc, out, err = C.run_lines([C.DRV, "world"], text)
+    k = 0
+    for w, mi in inputs:
+        failed = False
+        for idx, line in mi:
+            mo = out[k] if k < len(out) else "<missing>"; k += 1
+            cmd, res, fp = w.trace[idx]
+            if failed or line.startswith("setup") or line.startswith("unsupported"):
+                continue
+            mres, _, mfp = mo.partition(" | ")
+            compared += 1
+            a, b = norm_res(res, True), norm_res(mres, False)
+            diff = None
+            if a != b and not (a.startswith("err:9") and b.startswith("err:")):
+                diff = f"result impl={res.split()[0]} model={mres}"
+            else:
+                va, vb = fp_view(fp), fp_view(mfp)
+                if isinstance(va, tuple) and isinstance(vb, tuple):
+                    for name, x, y in zip(FIELD_NAMES, va, vb):
+                        if x != y:
+                            diff = f"{name}: impl={x[:160]} model={y[:160]}"; break
+                elif va != vb and not (fp in ("-",) or mfp in ("-",)):
+                    diff = f"fingerprint impl={fp[:100]} model={mfp[:100]}"
+            if diff:
+                fails.append({"kind": "corr", "signature": "corr:world:" + cmd.split()[0],
+                              "what": f"world {w.id} step {idx} `{cmd}`: {diff}", "replay_body": w.text(idx, "model and implementation disagree: " + diff)})
+                failed = True
+    return fails, compared
